@@ -147,9 +147,37 @@ let do_time (side : string) (args : string) : string =
      | Base.Panic w -> panic_text w
      | Base.Ok ns -> "NS " ^ z_to_string ns ^ " D " ^ z_to_string a.Uci.ga_depth)
 
+let code_text (c : coq_Z) : string =
+  let c = int_of_z c in
+  let k = c land 7 and t = (c lsr 3) land 255 and f = c lsr 11 in
+  let sqs s = Printf.sprintf "%c%c" (Char.chr (97 + (s land 15))) (Char.chr (49 + (s lsr 4))) in
+  sqs f ^ sqs t ^ (match k with 1 -> "n" | 2 -> "b" | 3 -> "r" | 4 -> "q" | 0 -> "" | _ -> "?")
+
+let spec_attack_map (p : Position.pos) : string =
+  let bits = Bytes.make 16 '\000' in
+  for c = 0 to 1 do
+    for i = 0 to 63 do
+      let sq = ((i lsr 3) lsl 4) lor (i land 7) in
+      if Abs.spec_attacked p (c = 0) (z_of_int sq) then begin
+        let k = c * 8 + i / 8 in
+        Bytes.set bits k (Char.chr (Char.code (Bytes.get bits k) lor (1 lsl (i mod 8))))
+      end
+    done
+  done;
+  Stdlib.String.concat "" (Stdlib.List.init 16 (fun k -> hex2 (Char.code (Bytes.get bits k))))
+
+(* answers computed from the specification alone (on the abstraction of the loaded position) *)
+let do_spec (p : Position.pos) : string =
+  Printf.sprintf "OK|%s|%s|%d|%s|%d|%d"
+    (sorted_join (Stdlib.List.map code_text (Abs.spec_legal_codes p)))
+    (sorted_join (Stdlib.List.map code_text (Abs.spec_tactical_codes p)))
+    (if Abs.spec_in_check p then 1 else 0) (spec_attack_map p)
+    (if Abs.spec_legal_position p then 1 else 0) (if Abs.make_refines p then 1 else 0)
+
 let handle (line : string) : string =
   match Stdlib.String.split_on_char '\t' line with
   | ["POS"; fen] -> (match load_fen fen with Error e -> e | Stdlib.Ok p -> do_pos p)
+  | ["SPEC"; fen] -> (match load_fen fen with Error e -> e | Stdlib.Ok p -> do_spec p)
   | ["FEN"; hx] -> (match load_fen (unhex hx) with Error e -> e | Stdlib.Ok p -> "OK|" ^ snapshot p)
   | ["GAME"; start; moves] -> do_game start (if moves = "" then [] else Stdlib.String.split_on_char ' ' moves)
   | ["POSCMD"; hx] ->
